@@ -1,7 +1,7 @@
 (* The gate (Model/Gate.v, C10) composed with the section model (Model/Section.v, C15): section operations that carry
    what the real calls carry - write(text, flags), write_line(text, flags), overwrite(text), clear(n) - on sections
    that each have their OWN quiet / verbosity settings: Output.section() hands the new SectionOutput the quiet flag, the
-   verbosity and the indentation the output has AT THAT MOMENT (proposed-fixes/section-inherits-gate.patch: before it, a
+   verbosity and the indentation the output has AT THAT MOMENT (/repo e696a15, proposed-fixes/section-inherits-gate.patch: before it, a
    section of a quiet output was not quiet - `io.set_quiet(True); io.section().write_line(x)` printed x); afterwards
    set_quiet / set_verbosity / indent are per object.
    Where the real calls consult Output._may_write (api/io/section_output.py, api/io/output.py):
@@ -15,7 +15,7 @@
                           re-printed newer sections then go through Output.write (flags None), which passes.
                           Undecorated: returns at once.
      add_content(text)    (public) `if not self._may_write(None): return` before anything is recorded
-                          (proposed-fixes/add-content-gated.patch: before it, what a quiet section was handed this way was
+                          (/repo 3538831, proposed-fixes/add-content-gated.patch: before it, what a quiet section was handed this way was
                           printed with the next write into an older section); nothing is written by the call itself.
    So EVERY call either is refused and does nothing, or performs its Section.v operation.
    Definitions only; Section.v and Gate.v are used as they are. *)
